@@ -1,12 +1,14 @@
 (* C01 — combinators obey PEG semantics with pyparsing's whitespace rule.
    Statements only.  `peg` (Model/Peg.v) is the reference reading; `in_class` the boolean predicate delimiting the grammars
-   covered: token classes (all of Model/Core.v except LineStart/GoToColumn), And, MatchFirst, Each (whose required operands
+   covered: token classes (all of Model/Core.v except LineStart/GoToColumn), And, MatchFirst, Or ('^': the alternative that
+   consumes the most input, leftmost on a tie), Each (whose required operands
    cannot return empty: see C01_each_once_refuted below), Opt (with or without default),
-   ZeroOrMore, OneOrMore (without stop_on), NotAny, FollowedBy, Group, Suppress, DelimitedList/TokenConverter wrappers, Forward
+   ZeroOrMore, OneOrMore (without stop_on), NotAny, FollowedBy, Group, Suppress, Combine (over a content that yields scalar
+   tokens only: `flat_class`, see the end of this file), DelimitedList/TokenConverter wrappers, Forward
    (recursive grammars through the environment G), any whitespace sets that satisfy the constructor's inheritance rule
    (`child_ok`), no parse actions, no results names, no ignore expressions. *)
 From Coq Require Import List ZArith NArith Bool.
-From PP Require Import Model.Str Model.Results Model.Prog Model.Core Model.Entry Model.Peg Proofs.PegEquiv Proofs.EachPeg.
+From PP Require Import Model.Str Model.Results Model.Prog Model.Core Model.Entry Model.Peg Proofs.PegEquiv Proofs.EachPeg Proofs.ClassIncl.
 Import ListNotations.
 
 (* For every environment of Forward bodies, element, input, location, fuel and do_actions flag: `_parse` called with
@@ -154,3 +156,75 @@ Example C01_each_instance :
   drun (parse (step []) 30) (parse_string [32; 10; 9; 13]%N ex_each false [97; 98]%N false)
     = Some (PErr (mkx XParse 0 (MMissing [7]) None)).
 Proof. split; [eexists; vm_compute; split; reflexivity|vm_compute; reflexivity]. Qed.
+
+(* ---- Or ('^') and Combine in the proved class ----
+   `in_class` contains every Or over alternatives of the class, and Combine(adjacent=True) over a content of the class that
+   yields scalar tokens only (`flat_class`: tokens, And, MatchFirst, Or, Opt with a scalar default, repetitions, Suppress,
+   nested Combine, lookaheads — no Group, Each or Forward inside the Combine), so C01_peg_equiv / C01_peg_equiv_nopre /
+   C01_parse_string above cover "'^' the alternative that consumes the most input (leftmost on a tie)" and "joins from
+   Combine".  The witnesses are the dumps (after streamline) of
+     CaselessLiteral("AB") ^ Word("ab") ^ Word("abc")      and      Word("x") + Combine(Word("ab") + "." + Opt(Word("01"))). *)
+Definition oc_at (id : nat) (asl sk cp mi hm : bool) (sl : nat) : attrs :=
+  {| nid := id; rsname := None; modalr := true; aslist := asl; skipws := sk; white := [9; 10; 13; 32]%N; callpre := cp;
+     mayidx := mi; custom := false; hasmsg := hm; acts := []; calltry := false; slen := sl |}.
+Definition ex_or : expr :=
+  Nary (oc_at 1 false true false true true 25) [] NOr
+    [ Tok (oc_at 2 false true true false true 4) [] (KCaselessLit [65; 66]%N [65; 66]%N);
+      Tok (oc_at 3 false true true false true 6) [] (KWord [97; 98]%N [97; 98]%N 1 None false false true);
+      Tok (oc_at 4 false true true false true 7) [] (KWord [97; 98; 99]%N [97; 98; 99]%N 1 None false false true) ].
+
+(* on "ab" all three alternatives end at 2: the leftmost one wins, visible by its token 'AB'; on " abc" the third
+   alternative consumes the most input; on "x" no alternative matches.  In each case the parser (do_actions = true and
+   false) and parse_string agree with the reading, as C01_peg_equiv / C01_parse_string say. *)
+Example C01_or_instance :
+  env_in_class [] = true /\ in_class [] ex_or = true /\
+  (let s := [97; 98]%N in
+   peg [] s 5 ex_or 0 = POk 2 [TStr [65; 66]%N] /\
+   proj (parse (step []) 5 (mkargs ex_or s 0 true true)) = Some (POk 2 [TStr [65; 66]%N]) /\
+   proj (parse (step []) 5 (mkargs ex_or s 0 false true)) = Some (POk 2 [TStr [65; 66]%N])) /\
+  (let s := [32; 97; 98; 99]%N in
+   peg [] s 5 ex_or 0 = POk 4 [TStr [97; 98; 99]%N] /\
+   proj (parse (step []) 5 (mkargs ex_or s 0 true true)) = Some (POk 4 [TStr [97; 98; 99]%N]) /\
+   proj (parse (step []) 5 (mkargs ex_or s 0 false true)) = Some (POk 4 [TStr [97; 98; 99]%N])) /\
+  (peg [] [120]%N 5 ex_or 0 = PFail /\
+   proj (parse (step []) 5 (mkargs ex_or [120]%N 0 true true)) = Some PFail) /\
+  (exists r, drun (parse (step []) 5) (parse_string [32; 10; 9; 13]%N ex_or false [32; 97; 98; 99]%N false) = Some (Entry.POk r)
+             /\ pr_as_list r = [TStr [97; 98; 99]%N]).
+Proof. vm_compute. repeat split. eexists. split; reflexivity. Qed.
+
+Definition ex_combine : expr :=
+  Nary (oc_at 1 true true true true true 39) [] NAnd
+    [ Tok (oc_at 2 false true true false true 5) [] (KWord [120]%N [120]%N 1 None false false true);
+      Enh (oc_at 3 false true true true false 31) [] (ECombine [])
+        (Nary (oc_at 4 true false true true true 21) [] NAnd
+           [ Tok (oc_at 5 false false true false true 6) [] (KWord [97; 98]%N [97; 98]%N 1 None false false true);
+             Tok (oc_at 6 false false true false true 3) [] (KLit [46%N]);
+             Enh (oc_at 7 false false true false false 8) [] (EOpt None)
+               (Tok (oc_at 8 false false true false true 6) [] (KWord [48; 49]%N [48; 49]%N 1 None false false true)) ]) ].
+
+(* "x ab.01 " reads ['x', 'ab.01']; on "x ab. 01" the content of the Combine does not skip whitespace: ['x', 'ab.'] *)
+Example C01_combine_instance :
+  env_in_class [] = true /\ in_class [] ex_combine = true /\
+  (let s := [120; 32; 97; 98; 46; 48; 49; 32]%N in
+   peg [] s 6 ex_combine 0 = POk 7 [TStr [120]%N; TStr [97; 98; 46; 48; 49]%N] /\
+   proj (parse (step []) 6 (mkargs ex_combine s 0 true true)) = Some (POk 7 [TStr [120]%N; TStr [97; 98; 46; 48; 49]%N])) /\
+  (let s := [120; 32; 97; 98; 46; 32; 48; 49]%N in
+   peg [] s 6 ex_combine 0 = POk 5 [TStr [120]%N; TStr [97; 98; 46]%N] /\
+   proj (parse (step []) 6 (mkargs ex_combine s 0 true true)) = Some (POk 5 [TStr [120]%N; TStr [97; 98; 46]%N])) /\
+  (exists r, drun (parse (step []) 6) (parse_string [32; 10; 9; 13]%N ex_combine false [120; 32; 97; 98; 46; 48; 49; 32]%N false)
+             = Some (Entry.POk r) /\ pr_as_list r = [TStr [120]%N; TStr [97; 98; 46; 48; 49]%N]).
+Proof. vm_compute. repeat split. eexists. split; reflexivity. Qed.
+
+(* the proved class is part of the reference class on which the reading is compared with the implementation *)
+Theorem C01_class_in_ref_class : forall (G : env) e, in_class G e = true -> in_ref_class G e = true.
+Proof. exact in_class_ref. Qed.
+Theorem C01_env_class_in_ref_class : forall (G : env), env_in_class G = true -> env_in_ref_class G = true.
+Proof. exact env_in_class_ref. Qed.
+
+(* a Combine over a Group is outside the proved class (it stays in the reference class, compared by correspondence) *)
+Example C01_combine_group_outside :
+  let g := Enh (oc_at 1 false true true true false 31) [] (ECombine [])
+             (Enh (oc_at 2 true false true true false 10) [] (EGroup false)
+                (Tok (oc_at 3 false false true false true 3) [] (KLit [46%N]))) in
+  in_class [] g = false /\ in_ref_class [] g = true.
+Proof. vm_compute. split; reflexivity. Qed.
